@@ -57,6 +57,24 @@ def run(chk):
             return f"dyn_loss = {found}"
         chk.run("C03.R1", site + "->dynamic_loss_apply", cfg, go, construct="dyn_loss formula")
 
+    # the dynamic term must not depend on the observation part of the batch (observed parameters belong to the
+    # observation term only)
+    for eq_type in ('ODE', 'statio_PDE', 'nonstatio_PDE'):
+        cfg = {"loss": eq_type, "net": "PINN", "residual_components": 2, "weight": "vector", "param_batch": [],
+               "observations_with_observed_parameter": "nu"}
+        site = {"ODE": "jinns.loss._LossODE:LossODE.evaluate", "statio_PDE": "jinns.loss._LossPDE:LossPDEStatio.evaluate",
+                "nonstatio_PDE": "jinns.loss._LossPDE:LossPDENonStatio.evaluate"}[eq_type]
+
+        def go(eq_type=eq_type):
+            S = SingleLoss(E, eq_type, 'PINN', d=2, m_u=2, m_res=2, terms=('dyn', 'obs'), wkind='vector')
+            total, terms = S.evaluate(observed_params=('nu',))
+            found = canon(scalar_of(terms['dyn_loss'], 'dyn_loss'))
+            exp = canon(scalar_of(S.expected_dyn(()), 'spec'))
+            if found != exp:
+                raise Violation("dyn_loss", str(found), str(exp))
+            return f"dyn_loss = {found}"
+        chk.run("C03.R1", site + "->dynamic_loss_apply", cfg, go, construct="dyn_loss formula (batch with observed parameters)")
+
     # R2 / R3: subsets of configured terms
     all_terms = {'ODE': ('dyn', 'ic', 'obs'), 'statio_PDE': ('dyn', 'norm', 'bc', 'obs'),
                  'nonstatio_PDE': ('dyn', 'norm', 'bc', 'obs', 'ic')}
